@@ -130,6 +130,7 @@ def build_T17(tree):
     out.append(lean_table('ctorParams', 'List String', [_s(p) for p in params], doc='constructor parameters in order'))
     sel_if = None
     guard_if = None
+    bs_if = None
     fixed, optional = [], []
     for st in ibody:
         if isinstance(st, ast.Expr) and ast.unparse(st.value) == 'super().__init__()':
@@ -141,6 +142,11 @@ def build_T17(tree):
             continue
         if isinstance(st, ast.If) and 'len(meaning)' in ast.unparse(st.test) and guard_if is None:
             guard_if = st
+            continue
+        if isinstance(st, ast.If) and bs_if is None and any(
+                isinstance(n, ast.Compare) and isinstance(n.ops[0], ast.In) and isinstance(n.left, ast.Constant) and n.left.value == '\\'
+                for n in ast.walk(st.test)):
+            bs_if = st
             continue
         if isinstance(st, ast.Assign) and len(st.targets) == 1:
             kw = _self_prop(st.targets[0], 'constructor assignment')
@@ -164,10 +170,13 @@ def build_T17(tree):
         raise Unsupported('value selection / meaning guard not found in the constructor')
     # literals of the URN/URL test
     lits = {}
+    lowered = False
     for node in ast.walk(sel_if):
         if isinstance(node, ast.Call) and isinstance(node.func, ast.Attribute) and node.func.attr == 'startswith' \
-                and ast.unparse(node.func.value) == 'value' and len(node.args) == 1 and isinstance(node.args[0], ast.Constant):
+                and ast.unparse(node.func.value) in ('value', 'value.lower()') and len(node.args) == 1 \
+                and isinstance(node.args[0], ast.Constant):
             lits['prefix'] = (node.args[0].value, ast.unparse(node))
+            lowered = ast.unparse(node.func.value) == 'value.lower()'
         if isinstance(node, ast.Compare) and len(node.ops) == 1 and isinstance(node.ops[0], ast.In) \
                 and isinstance(node.left, ast.Constant) and isinstance(node.left.value, str) \
                 and ast.unparse(node.comparators[0]) == 'value':
@@ -185,14 +194,39 @@ def build_T17(tree):
             return ast.copy_location(ast.parse(f'attr = {kws.index(kw)}').body[0], node)
     sel2 = Sel().visit(ast.parse(ast.unparse(sel_if)).body[0])
     blk = [sel2, ast.parse(ast.unparse(guard_if)).body[0], ast.parse('return attr').body[0]]
+    bs_attrs = {}
+    if bs_if is not None:
+        # guard on the value delimiter: every clause `'\\' in <param>` becomes an input, `<param> is not None` too
+        if not (len(bs_if.body) == 1 and isinstance(bs_if.body[0], ast.Raise) and not bs_if.orelse):
+            raise Unsupported('backslash guard changed shape')
+        g2 = ast.parse(ast.unparse(bs_if)).body[0]
+        for node in ast.walk(g2.test):
+            if isinstance(node, ast.Compare) and isinstance(node.ops[0], ast.In):
+                if not (isinstance(node.left, ast.Constant) and node.left.value == '\\' and isinstance(node.comparators[0], ast.Name)
+                        and node.comparators[0].id in params):
+                    raise Unsupported('backslash guard: unexpected membership test ' + ast.unparse(node))
+                bs_attrs[ast.unparse(node)] = ('bool', 'backslashIn_' + node.comparators[0].id)
+            elif isinstance(node, ast.Compare) and isinstance(node.ops[0], ast.IsNot):
+                if not (isinstance(node.left, ast.Name) and node.left.id in params):
+                    raise Unsupported('backslash guard: unexpected test ' + ast.unparse(node))
+                bs_attrs[ast.unparse(node)] = ('bool', 'given_' + node.left.id)
+        if ibody.index(bs_if) > ibody.index(sel_if):
+            raise Unsupported('backslash guard no longer precedes the value assignment')
+        blk = [g2] + blk
     for s in blk:
         ast.fix_missing_locations(s)
-    cattrs = {
+    cattrs = dict(bs_attrs)
+    cattrs.update({
         'len(value)': ('int', 'valueLen'),
         lits['prefix'][1]: ('bool', 'startsWithPrefix'),
         lits['marker'][1]: ('bool', 'containsMarker'),
         'len(meaning)': ('int', 'meaningLen'),
-    }
+    })
+    out.append('/-- the prefix test is made on the lower-cased value -/\ndef urnPrefixCaseInsensitive : Bool := '
+               + ('true' if lowered else 'false'))
+    out.append(lean_table('ctorBackslashChecked', 'List String',
+                          [_s(v[1].split('_', 1)[1]) for k, v in bs_attrs.items() if v[1].startswith('backslashIn_')],
+                          doc='constructor parameters refused when they contain the value delimiter'))
     out.append(f'/-- literal of `value.startswith(..)` in the constructor -/\ndef urnPrefix : String := {_s(lits["prefix"][0])}')
     out.append(f'/-- literal of `.. in value` in the constructor -/\ndef urlMarker : String := {_s(lits["marker"][0])}')
     out.append(translate_block(blk, 'ctorValueAttr', [], cattrs,
